@@ -14,6 +14,8 @@ use std::collections::{BTreeMap, BTreeSet, HashMap};
 use std::sync::Mutex;
 use vcommon::{cmodel, Args, Report};
 
+static FRESH_IDS: Mutex<BTreeSet<Uuid>> = Mutex::new(BTreeSet::new());
+
 fn intern(names: Vec<&'static str>) -> &'static [&'static str] {
     static TABLE: Mutex<Option<HashMap<Vec<&'static str>, &'static [&'static str]>>> = Mutex::new(None);
     let mut g = TABLE.lock().unwrap();
@@ -295,6 +297,12 @@ fn check_error(e: &DynError, r: &mut Report, all_constructions: bool) {
     r.transitions += 3;
     let a = encode(e);
     let b = encode(e);
+    // fresh ids are fresh across the whole run (every worker thread included)
+    for id in [a.error_instance_id(), b.error_instance_id()] {
+        if !FRESH_IDS.lock().unwrap().insert(id) && a.error_instance_id() != b.error_instance_id() {
+            r.violation("C17|encode|instance-id-repeats-across-encodings".to_string(), format!("the fresh instance id {} was handed out twice in one process (different encodings, possibly different threads)", id), json!({"error": describe(e), "via": "encode"}));
+        }
+    }
     check_encoded(e, &a, None, r, "encode");
     if a.error_instance_id() == b.error_instance_id() {
         r.violation(format!("C17|encode|instance-id-not-fresh|{}", shape_class(e)), format!("two encodings share the instance id {}", a.error_instance_id()), json!({"error": describe(e), "via": "encode"}));
